@@ -37,6 +37,7 @@ class Sched:
         self.steps = [0] * nthreads
         self.switches = []  # (from_thread, function name where it was preempted)
         self.errors = []
+        self.copy_context = False
 
     # -- choosing who runs next ----------------------------------------------------------
     def _next(self, tid):
@@ -107,12 +108,20 @@ class Sched:
                 sys.settrace(None)
                 self.finish(tid)
 
+        if self.copy_context:
+            # the worker runs inside a *copy of the spawning thread's context* (what asyncio.to_thread and
+            # contextvars.copy_context().run do): it is still another thread
+            import contextvars
+
+            cctx = contextvars.copy_context()
+            return threading.Thread(target=lambda: cctx.run(run), daemon=True)
         return threading.Thread(target=run, daemon=True)
 
 
-def run_interleaved(fns, segments, quantum):
+def run_interleaved(fns, segments, quantum, copy_context=False):
     """Run the callables in worker threads under the given schedule.  -> (results, sched)"""
     s = Sched(len(fns), segments, quantum)
+    s.copy_context = copy_context
     results = [None] * len(fns)
     threads = [s.worker(i, f, results) for i, f in enumerate(fns)]
     for t in threads:
